@@ -506,6 +506,41 @@ def r21m(F):
     return r
 
 
+def r21e(F):
+    r = RuleResult("R21e", "an empty candidate list is unconstrained on either side",
+                   "Narrowed([]) is the shape of an element of a list that started as `[]`: narrowing against it, from the left or "
+                   "from the right, must not reach the candidate-by-candidate comparison (which finds no fitting candidate in an "
+                   "empty list and reports a type error) - evaluated with `is_empty()` answering true", floor=2)
+    from .. import absint as AI
+    name = SHAPE + "::narrow_cached"
+    fn = F.fn(name)
+    need(fn is not None, "Shape::narrow_cached not found")
+    cmp_closures = set()
+    for n in sorted(F.fns):
+        if n.startswith(name + "::{closure") and any(callee(t) == name for b, t in F.fns[n].calls()):
+            cmp_closures.add(n)
+    need(cmp_closures, "narrow_cached: no candidate-by-candidate comparison found in a closure (idiom not recognised)")
+    built = {b for b, j, pl, rv, m in fn.assigns() if rv["k"] == "agg" and rv.get("adt") == "{closure}" and rv.get("closure") in cmp_closures}
+    need(built, "narrow_cached: the comparison closures are not built in the function itself")
+    empties = {callee(t) for b, t in fn.calls() if callee(t).endswith("::is_empty")}
+    need(empties, "narrow_cached asks no is_empty(): the guard for an empty candidate list is written some other way")
+    cands = ("e", SHAPE, "Narrowed", (("0", ("e", "ucglib::ast::NarrowedShape", None, (("types", ("e", NARROWING, "Narrowed", ())),))),))
+    for side, what in ((1, "left"), (2, "right")):
+        sim = AI.Sim(F, depth=2, opaque={name}, force_all={c: AI.T for c in empties})
+        args = [AI.U] * fn.nargs
+        args[side - 1] = ("r", (side, ("*",)))
+        try:
+            sim.run(fn, args, init={(side, ("*",)): cands})
+        except AI.Lossy:
+            need(False, "narrow_cached: state space too large for the evaluation")
+        hit = sorted(b for (f, b) in sim.visited if f == name and b in built)
+        r.inst("narrow_cached:empty-candidates:%s" % what, fn.where(hit[0]) if hit else fn.where(), not hit,
+               "an empty candidate list on the %s never reaches the candidate comparison" % what if not hit else
+               "with an empty candidate list on the %s the candidate comparison is still reached: `let l = [] + [7, 8]; let x = 1 + l.1;` "
+               "is rejected (\"No narrowed candidate is compatible with int\") although it evaluates" % what)
+    return r
+
+
 from . import c09 as _c09
 
-RULES = [r21a, r21b, r21c, r21h, r21p, r21s, r21d, r21n, r21q, r21m, _c09.r25p]
+RULES = [r21a, r21b, r21c, r21h, r21p, r21s, r21d, r21n, r21q, r21m, r21e, _c09.r25p]
